@@ -22,7 +22,9 @@ RULE = ("uniform: random UniformIce (index, range, index_above/below incl. None)
         "completeness next to the cut-offs of the launch-angle grid: cut uniform ice with pairs within 1 degree of horizontal "
         "(direct, level, surface-reflected), cut AntarcticIce with the receiver 0.03-2 % inside the shadow edge (direct_r_max), "
         "refracted paths launched 0.01-0.9 degree below a critical angle (forward Snell construction as reference); "
-        "endpoints exactly on a range bound with explicit outside indices; a case is non-trivial when it has at "
+        "endpoints exactly on a range bound with explicit outside indices; integer-valued endpoints handed over as Python ints, "
+        "int lists, int64 and float32 arrays (uniform and layered tracers, against the model, the image construction and the "
+        "float64 evaluation); a case is non-trivial when it has at "
         "least one reflection, layer crossing or a guard; distinct = distinct (kind, ice, endpoints, option) tuples")
 LEVEL_TEXT = ("image-source theorems (length, mirror law, boundary points, directions, tof), chain continuity, Snell / "
               "mirror step of the layered trace, split-medium reductions, unit transmission / zero reflection for equal "
@@ -82,7 +84,7 @@ def rand_uice(run, im):
 def rand_pair(run, lo, hi, kind=None):
     """endpoints strictly inside (lo,hi) unless a special kind says otherwise"""
     r = run.rng
-    kind = kind or r.choice(["general"] * 6 + ["far", "vertical", "level", "outside", "boundary", "same"])
+    kind = kind or r.choice(["general"] * 6 + ["far", "vertical", "level", "outside", "boundary", "same", "intform", "intform"])
     span = hi - lo
     z0 = lo + span * r.uniform(0.02, 0.98)
     z1 = lo + span * r.uniform(0.02, 0.98)
@@ -107,7 +109,31 @@ def rand_pair(run, lo, hi, kind=None):
             B[2] = r.choice([lo, hi])
     elif kind == "same":
         B = list(A)
+    elif kind == "intform":
+        # integer-valued coordinates (the caller hands them over as ints / int arrays); keep them strictly inside
+        A = [round(A[0]), round(A[1]), min(max(round(A[2]), math.floor(lo) + 2), math.ceil(hi) - 2)]
+        B = [round(B[0]), round(B[1]), min(max(round(B[2]), math.floor(lo) + 2), math.ceil(hi) - 2)]
+        if (A[0], A[1]) == (B[0], B[1]):
+            B[0] += 7
     return kind, [float(v) for v in A], [float(v) for v in B]
+
+
+INT_FORMS = ["int-tuple", "int-list", "int64"]
+
+
+def as_form(P, form):
+    """integer-valued coordinates as Python ints / int list / int64 array / float32 array; anything else as floats"""
+    if not form or form == "float64" or any(float(v) != int(v) for v in P):
+        return [float(v) for v in P]
+    if form == "int-tuple":
+        return tuple(int(v) for v in P)
+    if form == "int-list":
+        return [int(v) for v in P]
+    if form == "int64":
+        return np.array([int(v) for v in P], dtype=np.int64)
+    if form == "float32":
+        return np.array(P, dtype=np.float32)
+    raise ValueError(form)
 
 
 # --------------------------------------------------------------------------------------------
@@ -146,7 +172,8 @@ def corr_uniform(run):
         ice = rand_uice(run, im)
         kind, A, B = rand_pair(run, *ice.valid_range)
         maxref = run.rng.choice([0, 1, 2, 3, 3])
-        tr, sols = uniform_impl(rt, ice, A, B, maxref)
+        form = run.rng.choice(INT_FORMS) if kind == "intform" else None
+        tr, sols = uniform_impl(rt, ice, as_form(A, form), as_form(B, form), maxref)
         run.count("uniform_" + kind)
         run.count("uniform_maxref_%d" % maxref)
         run.count("uniform_guard_%s_%s" % ("N" if ice._index_above is None else "v", "N" if ice._index_below is None else "v"))
@@ -947,6 +974,73 @@ def oracle_gradient_stack(run, desc):
     return oracle_layered_chain(run, tr, sols, desc)
 
 
+# --------------------------------------------------------------------------------------------
+# the same integer-valued endpoints in different container / dtype forms
+def solution_signature(sol):
+    sig = [float(sol.path_length), float(sol.tof)] + fls(sol.emitted_direction) + fls(sol.received_direction)
+    if hasattr(sol, "_points"):
+        sig += fls(sol._points)
+    if hasattr(sol, "paths"):
+        for sp in sol.paths:
+            sig += fls(sp.from_point) + fls(sp.to_point)
+    return sig
+
+
+def forms_case(run, which):
+    r = run.rng
+    if which == "uniform":
+        rt, im, LayeredIce, LayeredRayTracer = _mods()
+        ice = rand_uice(run, im)
+        kind, A, B = rand_pair(run, *ice.valid_range, kind="intform")
+        return {"which": which, "ice": [ice.n, ice.valid_range[0], ice.valid_range[1], ice._index_above, ice._index_below],
+                "A": A, "B": B, "max_reflections": r.choice([1, 2, 3])}
+    nl = r.randint(2, 3)
+    top, layers = 0.0, []
+    for i in range(nl):
+        bot = top - r.randint(40, 300) - r.choice([0.0, 0.5])
+        layers.append({"type": "u", "n": r.uniform(1.3, 1.9), "range": [bot, top]})
+        top = bot
+    edges = [z for l in layers for z in l["range"]]
+
+    def zin():
+        while True:
+            z = float(r.randint(int(top) + 3, -3))
+            if all(abs(z - e) > 1.2 for e in edges):
+                return z
+    A = [float(r.randint(-300, 300)), float(r.randint(-300, 300)), zin()]
+    B = [A[0] + r.randint(10, 600), A[1] + r.randint(-300, 300), zin()]
+    return {"which": which, "layers": layers, "above": 1, "below": r.choice([None, 2.0]), "A": A, "B": B,
+            "max_reflections": r.choice([0, 1])}
+
+
+def oracle_forms(run, data):
+    """every form of handing over the same integer-valued endpoints gives the float64 result"""
+    rt, im, LayeredIce, LayeredRayTracer = _mods()
+
+    def solve(form):
+        A, B = as_form(data["A"], form), as_form(data["B"], form)
+        if data["which"] == "uniform":
+            n, lo, hi, ab, be = data["ice"]
+            tr = rt.UniformRayTracer(A, B, im.UniformIce(n, valid_range=(lo, hi), index_above=ab, index_below=be))
+        else:
+            tr = LayeredRayTracer(A, B, build_stack(data))
+        tr.max_reflections = data["max_reflections"]
+        with np.errstate(all="ignore"):
+            return [solution_signature(s) for s in tr.solutions]
+    run.case(("oracle-forms", str(data)), nontrivial=True)
+    ref = solve("float64")
+    scale = max(1.0, max(abs(v) for v in data["A"] + data["B"]))
+    for form in INT_FORMS + ["float32"]:
+        got = solve(form)
+        tol = 1e-12 if form != "float32" else 3e-6      # float32 carries 6e-8 relative through rho and phi
+        if len(got) != len(ref) or any(len(g) != len(w) or any(abs(x - y) > tol * max(scale, abs(y)) for x, y in zip(g, w))
+                                       for g, w in zip(got, ref)):
+            run.fail_input("forms-" + data["which"], dict(data, form=form), observed=got[:3], expected=ref[:3],
+                           what="endpoints given as %s give a different result than the same coordinates as float64" % form)
+            return False
+    return True
+
+
 def bounce_walks(m, start, down, refl):
     """independent enumeration of the complete index walks: depth-first over "move on" / "turn around" """
     out = []
@@ -998,6 +1092,10 @@ def search(run, deep):
     for i in range(n):
         ice = rand_uice(run, im)
         kind, A, B = rand_pair(run, *ice.valid_range)
+        if kind == "intform":
+            form = run.rng.choice(INT_FORMS)
+            A, B = as_form(A, form), as_form(B, form)
+            A, B = (A.tolist() if hasattr(A, "tolist") else list(A)), (B.tolist() if hasattr(B, "tolist") else list(B))
         maxref = run.rng.choice([0, 1, 2, 3])
         run.case(("oracle-uniform", kind, ice.n, ice.valid_range, tuple(A), tuple(B), maxref), nontrivial=maxref > 0)
         with np.errstate(all="ignore"):
@@ -1036,6 +1134,11 @@ def search(run, deep):
     for i in range(8 if not deep else 80):
         run.count("complete_critical")
         oracle_critical(run, critical_case(run))
+    # integer-valued endpoints as Python ints / int lists / int64 / float32 arrays against the float64 evaluation
+    for which, m in (("uniform", 12), ("layered", 4)):
+        for i in range(m if not deep else 10 * m):
+            run.count("forms_" + which)
+            oracle_forms(run, forms_case(run, which))
     # endpoints exactly on a range bound with explicit outside indices: tof = n L / c with the index of the ice itself
     for i in range(10 if not deep else 100):
         ice = rand_uice(run, im)
@@ -1070,6 +1173,8 @@ def replay(run, data):
             oracle_uniform(run, rt, ice, inp["A"], inp["B"], inp["max_reflections"], "boundary" if on_bound else "general")
     elif kind == "complete-critical":
         oracle_critical(run, inp)
+    elif kind.startswith("forms-"):
+        oracle_forms(run, {k: v for k, v in inp.items() if k != "form"})
     elif kind.startswith("layered-") and "layers" in inp:
         oracle_gradient_stack(run, inp)
     elif kind.startswith("layered-"):
